@@ -9,7 +9,7 @@ QUICK_MUTANTS = ["byteLength", "substringBytes", "indexOfBytes", "noBoundsCheck"
 # (cfg, minimum number of cases the generator must emit) per tier
 MODEL = {"quick": ("C14_mc_quick.cfg", 50000), "thorough": ("C14_mc_thorough.cfg", 300000)}
 # tlc -simulate: traces per worker, workers; every trace is one string of 5..12 symbols with PerString cases
-SIM = {"quick": (12, 4), "thorough": (300, 8)}
+SIM = {"quick": (12, 4), "thorough": (250, 8)}
 SIM_DEPTH = 45
 
 
